@@ -82,11 +82,14 @@ CLAIMS = {
   ref="DESIGN.md §3 C19"),
 }
 
+CLAIMS["C12"] = dict(
+  text="Proof of the sequential half: every method of ValueMap (Load, Store, LoadOrStore, LoadAndDelete, Delete, Clear, Range, Length, MustLoad, ToJSON, UnmarshalJSON, and the internal missLocked / dirtyLocked / entry operations) is verified against the ordinary string-keyed map it stands for (abstract content vmHas/vmGet over the read table, the amended flag and the dirty table): the representation invariant of the two-table design is required and re-established by every method (`holds`), each operation changes exactly the key it names and returns what the abstract map holds, promotion and dirty-table rebuild leave the content unchanged, the zero value is the empty map, Range hands f live pairs with their current values, each key at most once, and all of them unless f stops it. Go maps are modelled precisely for the table type; mutexes, atomic.Value and atomic pointer operations have their sequential meaning; CAS retry loops are shown to run once. Frame obligations: the tables are touched only by ValueMap's own methods, and every method is under a `holds` contract.",
+  note="NOT covered (not applicable to this family): the concurrent half of the property — linearizability and quiescent consistency are statements about interleavings; contracts on single calls in a sequential semantics cannot state them, and dsvc has no model of concurrent atomics. Length: cardinality is not axiomatised; proved are result >= 0 and result == 0 <=> the map is empty. Range's claims hold under the listed assumption that f does not modify the map it ranges over. Fixed on the way (fix: commits): Length counted deleted entries; dict equality compared len of the internal dirty table.",
+  ref="DESIGN.md §3 C12")
+
 props = [json.loads(l)["id"] for l in open("/verif/properties.jsonl")]
 NA_REASON = "check not built yet in this round (framework under construction); see DESIGN.md §5 for the build order"
-NA = {
- "C12": "not applicable to this family here: ValueMap is built on sync.Mutex, sync/atomic pointers and unsafe-free but lock-free read paths; the sequential half needs a model of atomic.Pointer/atomic.Value cells that dsvc does not have (functions are reported outside the subset by the sweep), and the concurrent half (linearizability) is a property of interleavings that contracts on single calls cannot state",
-}
+NA = {}
 
 checks = []
 for pid in props:
